@@ -29,6 +29,7 @@ func checkC03(c *Ctx) {
 	c.decodeWithinPacket()
 	c.dirtyDiscipline()
 	c.lengthAndWriterAgree()
+	c.packetIDWrittenWhole()
 	c.lenOrdering()
 	c.typeTables()
 	c.flagBitTables()
@@ -200,6 +201,18 @@ func (c *Ctx) viewsOfDecodeBuffer() {
 				st, ok := in.(*ssa.Store)
 				if !ok {
 					continue
+				}
+				// the byte copied into the message's own buffer (h.mtypeflags[0] = src[i]) instead of the field
+				// being made a view of the input
+				if ia, isEl := st.Addr.(*ssa.IndexAddr); isEl {
+					if ep := ir.PathOf(ia.X); len(ep.Fields) > 0 && !ep.Opaque {
+						if ef := ep.Fields[len(ep.Fields)-1]; ef == "mtypeflags" || ef == "packetID" {
+							n++
+							c.R.Bad("T3-dirty-discipline", fmt.Sprintf("%s:%s-is-view-of-input", fname(fn), ef), c.P.InstrPos(st),
+								"the decoder copies the byte into the message's own "+ef+" buffer instead of making the field a sub-slice of its input: setters that change it in place without marking the message dirty (SetDup, SetRetain, SetQoS within QoS>0, SetPacketID) no longer change the bytes Encode sends for a decoded message")
+							continue
+						}
+					}
 				}
 				p := ir.PathOf(st.Addr)
 				if len(p.Fields) == 0 {
@@ -551,6 +564,12 @@ func (c *Ctx) lenOrdering() {
 				}
 			}
 		}
+		if hl != nil && set == nil && recvNamed(fn) != "header" && len(c.calls(fn, pkgMessage, recvNamed(fn), "msglen")) > 0 {
+			// a body of variable length is added to a header length that was computed for the old remaining length
+			n++
+			c.R.Bad("T3-dirty-discipline", fname(fn)+":header-length-after-remaining-length", c.P.InstrPos(hl), "Len() adds the body length to the fixed-header length without first setting the remaining length: the header length is that of the previous remaining length (0 for a new message) - once the body crosses a varint boundary (128, 16384, 2097152 bytes) Len() is too small and the packet is written short")
+			continue
+		}
 		if set == nil || hl == nil {
 			continue
 		}
@@ -558,7 +577,7 @@ func (c *Ctx) lenOrdering() {
 		c.R.Check(ir.Before(set, hl), "T3-dirty-discipline", fname(fn)+":header-length-after-remaining-length", c.P.InstrPos(hl), "SetRemainingLength precedes header.msglen()", "Len() computes the fixed-header length before the remaining length is updated: at a varint boundary (remaining length 128, 16384, 2097152) Len() is one byte short of what Encode needs and the packet cannot be written")
 	}
 	c.R.Count("Len methods", n)
-	c.R.Floor("Len methods", n, 7)
+	c.R.Floor("Len methods", n, 3)
 }
 
 // typeTables: T1 for the packet-type tables and the header-length thresholds.
@@ -1284,4 +1303,85 @@ func evalSmallIntFunc(fn *ssa.Function, k int64) (int64, bool) {
 		}
 	}
 	return 0, false
+}
+
+// packetIDWrittenWhole: every encoder writes the packet identifier as the two bytes its length function counts. The
+// identifier field is empty until it is set: a copy of the field whose count advances the cursor writes nothing for
+// an unset identifier. Accepted: a copy into a destination of exactly two bytes, or a copy that is unreachable while
+// the identifier is unset (the encoder assigns one first).
+func (c *Ctx) packetIDWrittenWhole() {
+	sp := c.P.SPkgs["message"]
+	if sp == nil {
+		return
+	}
+	n := 0
+	for _, fn := range c.P.Funcs {
+		if fn.Pkg != sp || fn.Parent() != nil {
+			continue
+		}
+		for _, call := range ir.Calls(fn) {
+			bi, ok := call.Common().Value.(*ssa.Builtin)
+			if !ok || bi.Name() != "copy" || len(call.Common().Args) != 2 {
+				continue
+			}
+			p := ir.PathOf(call.Common().Args[1])
+			if len(p.Fields) == 0 || p.Fields[len(p.Fields)-1] != "packetID" {
+				continue
+			}
+			n++
+			key := fmt.Sprintf("%s:packet-id-written-as-two-bytes", fname(fn))
+			// (a) destination of exactly two bytes
+			if d, ok := call.Common().Args[0].(*ssa.Slice); ok && d.Low != nil && d.High != nil {
+				if bo, ok := d.High.(*ssa.BinOp); ok && bo.Op == token.ADD && bo.X == d.Low {
+					if k, ok := bo.Y.(*ssa.Const); ok && k.Value != nil && k.Value.ExactString() == "2" {
+						c.R.Ok("T10-length-writer-agreement", key, c.P.InstrPos(call), "copied into a destination of exactly two bytes")
+						continue
+					}
+				}
+			}
+			// (b) unreachable with an unset identifier: judged in the function itself, or - for a helper that is handed
+			// a message whose identifier its caller has settled - in each caller with the helper inlined
+			findAtom := func(g *paths.Graph) string {
+				for _, nd := range g.All() {
+					if iff, ok := nd.Instr.(*ssa.If); ok {
+						if a, _ := edgeAtom(iff, 0); strings.HasPrefix(a, "eq:") && strings.Contains(a, "PacketID:0") {
+							return a
+						}
+					}
+				}
+				return ""
+			}
+			roots := []*ssa.Function{fn}
+			if findAtom(paths.New(c.P, fn, 0)) == "" {
+				roots = nil
+				for _, site := range c.P.Callers(fn) {
+					roots = append(roots, site.Parent())
+				}
+			}
+			target := func(nd paths.Node) bool { return nd.Instr == ssa.Instruction(call) }
+			set := nodeM(mMethod(pkgMessage, "header", "SetPacketID"))
+			bad := len(roots) == 0
+			var wit []string
+			for _, root := range roots {
+				g := paths.New(c.P, root, 1)
+				g.Expand = func(callee *ssa.Function, site ssa.CallInstruction) bool { return callee == fn && root != fn }
+				atom := findAtom(g)
+				if atom == "" {
+					bad = true
+					continue
+				}
+				if pth := reach(g, []paths.Node{g.Entry()}, set, target, Assume{atom: true}); pth != nil {
+					bad = true
+					wit = c.witness(g, pth)
+				}
+			}
+			if bad {
+				c.R.Bad("T10-length-writer-agreement", key, c.P.InstrPos(call), "the copy of the identifier field, whose count advances the cursor, is reachable while the identifier is unset (or nothing tests for that): no identifier bytes are written although the length function counts two - the packet is two bytes short of its remaining length", wit...)
+			} else {
+				c.R.Ok("T10-length-writer-agreement", key, c.P.InstrPos(call), "an identifier is assigned before the field is copied")
+			}
+		}
+	}
+	c.R.Count("encoder copies of the packet identifier field", n)
+	c.R.Floor("encoder copies of the packet identifier field", n, 1)
 }
